@@ -115,7 +115,7 @@ def run(ctx):
         # step (what it hands out must reflect the field as it is now); the others ask the field element each time
         dict_view = next(iter(d)).as_interpreted_dict_view(interp[kind]) if rng.random() < 0.5 else None
         for step in range(rng.randint(0, 3)):
-            op = rng.choice(["append", "remove", "replace", "ref-set", "ref-remove", "aborted"])
+            op = rng.choice(["append", "remove", "replace", "ref-set", "ref-remove", "aborted", "lazy-walk"])
             try:
                 if op == "aborted":
                     # a session that fails half way writes nothing back
@@ -168,6 +168,26 @@ def run(ctx):
                             model[k] = "rr"
                         else:
                             del model[k]
+                    elif op == "lazy-walk" and len(model) >= 3:
+                        # walking the references lazily (the natural "for ref in ...") while the value AHEAD of the current one is
+                        # removed: the walk goes on with the values that are still in the list, and edits through the references
+                        # it hands out afterwards reach the list
+                        ks = [k for k in range(len(model) - 1) if model.count(model[k + 1]) == 1]
+                        if not ks:
+                            continue
+                        k = rng.choice(ks)
+                        ops.append(["lazy walk: at value %d remove the next value, then mark every later value" % k])
+                        walked = []
+                        for j, ref in enumerate(l.iter_value_references()):
+                            walked.append(ref.value)
+                            if j == k:
+                                l.remove(model[k + 1])
+                            elif j > k:
+                                ref.value = ref.value + "x"
+                        exp_walk = model[:k + 1] + model[k + 2:]
+                        if walked != exp_walk:
+                            raise AssertionError("the walk handed out %r, the list held %r" % (walked, exp_walk))
+                        model[:] = model[:k + 1] + [v + "x" for v in model[k + 2:]]
                     else:
                         continue
             except Exception as e:
